@@ -469,3 +469,65 @@ def site_anchors(F, fn, body, bi):
                         out |= site_anchors(F, fn, parent, b2)
         return out
     return site_anchors(F, fn, parent, cb)
+
+
+
+def ip_origins(F, fn, operand, depth=0, seen=None):
+    """interprocedural deep origins: like c03.kind_deep, but a call of a crate-local function is entered -- the origins of its
+    return value are followed and its parameters are mapped back to the arguments at the call.  Returns a set of
+    (function path, descriptor, field path); `call` descriptors are kept for every call passed through."""
+    from ..flow import origins, rvalue_operands
+    seen = seen if seen is not None else set()
+    out = set()
+    for d, p in origins(fn, operand):
+        out.add((fn.path, d, p))
+        if d[0] == "call" and (fn.path, d[1]) not in seen and depth < 12:
+            seen.add((fn.path, d[1]))
+            t = fn.term(d[1])
+            h = F.fn(t["callee"].get("resolved") or t["callee"].get("def") or "")
+            if h is not None and h.mir and not h.in_test_file() and h.kind != "closure" and depth < 9:
+                for hp, hd, hpp in ip_origins(F, h, {"copy": {"l": 0, "p": []}}, depth + 3, seen):
+                    if hp == h.path and hd[0] == "param" and 1 <= hd[1] <= len(t["args"]):
+                        # a parameter of the helper: continue at the argument, keeping the field path read inside the helper
+                        for q in ip_origins(F, fn, t["args"][hd[1] - 1], depth + 1, seen):
+                            out.add((q[0], q[1], tuple(q[2]) + tuple(hpp)))
+                    else:
+                        out.add((hp, hd, hpp))
+            else:
+                for a in t["args"]:
+                    out |= ip_origins(F, fn, a, depth + 1, seen)
+        elif d[0] == "agg" and depth < 12:
+            st = fn.stmts(d[1])[d[2]]
+            for o in st["rv"]["ops"]:
+                out |= ip_origins(F, fn, o, depth + 1, seen)
+        elif d[0] == "op" and depth < 12 and (fn.path, "op", d[1], d[2]) not in seen:
+            seen.add((fn.path, "op", d[1], d[2]))
+            for o in rvalue_operands(fn.stmts(d[1])[d[2]]["rv"]):
+                out |= ip_origins(F, fn, o, depth + 1, seen)
+    return out
+
+
+
+def bodies_with_helpers(F, fn, depth=2):
+    """the bodies of fn, its closures, and the crate-local free functions / inherent helpers they call (transitively, bounded):
+    what a rule should look at when it asks "does this method do X somewhere on the way" """
+    out = list(F.with_closures(fn))
+    seen = {b.path for b in out}
+    frontier = list(out)
+    for _ in range(depth):
+        nxt = []
+        for b in frontier:
+            for bi, t in b.calls():
+                c = t["callee"]
+                if "indirect" in c or c.get("trait"):
+                    continue
+                h = F.fn(c.get("resolved") or c.get("def") or "")
+                if h is None or not h.mir or h.in_test_file() or h.path in seen:
+                    continue
+                for hb in F.with_closures(h):
+                    if hb.path not in seen:
+                        seen.add(hb.path)
+                        out.append(hb)
+                        nxt.append(hb)
+        frontier = nxt
+    return out
